@@ -604,7 +604,60 @@ func armName(n int64, ok bool) string {
 	return fmt.Sprintf("U+%04X", n)
 }
 
+// c19bTokenCarriesNothingElse: a token is a kind, a text and a position. The kind and the text are
+// what C19 says layout must not change; the position is confined by C16.d (it never decides). A
+// further field of token.Token would be a way for the lexer to tell the parser how the source was
+// laid out (a "first token on its line" flag) that none of those rules follows: every access to
+// a field of a token, in every package, is to one of the eight reviewed fields.
+func c19bTokenCarriesNothingElse(c *Ctx) {
+	allowed := map[string]bool{"Type": true, "Literal": true, "LineNumber": true, "EndLineNumber": true, "StartCharIndex": true, "EndCharIndex": true, "StartUtf8CharIndex": true, "EndUtf8CharIndex": true}
+	n := 0
+	bad := map[string]string{}
+	for _, f := range c.W.Funcs {
+		if isTestFunc(c.W, f) || len(f.Blocks) == 0 {
+			continue
+		}
+		instrs(f, func(in ssa.Instruction) {
+			var t types.Type
+			idx := -1
+			switch x := in.(type) {
+			case *ssa.FieldAddr:
+				t, idx = deref(x.X.Type()), x.Field
+			case *ssa.Field:
+				t, idx = x.X.Type(), x.Field
+			default:
+				return
+			}
+			if !typeIs(t, "token", "Token") {
+				return
+			}
+			n++
+			st, ok := t.Underlying().(*types.Struct)
+			if !ok || idx >= st.NumFields() {
+				return
+			}
+			name := st.Field(idx).Name()
+			if !allowed[name] {
+				if _, seen := bad[name+"@"+f.Name()]; !seen {
+					bad[name+"@"+f.Name()] = c.W.Pos(in.Pos())
+				}
+			}
+		})
+	}
+	var keys []string
+	for k := range bad {
+		keys = append(keys, k)
+	}
+	sort.Strings(keys)
+	for _, k := range keys {
+		parts := strings.SplitN(k, "@", 2)
+		c.Bad("token-carries-kind-text-position-only/"+k, bad[k], parts[1]+" accesses Token."+parts[0]+", which is neither the kind, the text nor a position of the token: what the lexer puts there can depend on how the source is laid out, and no rule follows it into the parser")
+	}
+	c.Check(n >= 100, "token-carries-kind-text-position-only/scanned", "-", fmt.Sprintf("%d accesses to token fields, all to the eight reviewed fields", n), fmt.Sprintf("only %d accesses to token fields found", n))
+}
+
 func c19b(c *Ctx) {
+	c19bTokenCarriesNothingElse(c)
 	fn := c.Fn("lexer.Lexer.readChar")
 	pk := c.Fn("lexer.Lexer.peekChar")
 	if fn == nil || pk == nil {
